@@ -95,6 +95,7 @@ def execute_guarded(prop, sc, limit_s=90):
 
 
 EARLY_STOP = 48  # unknown violations after which a batch stops searching
+HARD_EXIT = False  # set when a worker pool was abandoned: main() then leaves through os._exit
 
 
 def _worker_init(base):
@@ -407,7 +408,9 @@ def run_check(pid, tier="quick", base_seed=0, n=None, workers=None, wall_cap=Non
     ctx = mp.get_context("fork")
     timed_out = False
     early_stop = False
-    with cf.ProcessPoolExecutor(max_workers=workers, mp_context=ctx, initializer=_worker_init, initargs=(base,)) as ex:
+    # (no `with`: after an early stop or a wall-cap overrun the pool is abandoned, not joined - see below)
+    ex = cf.ProcessPoolExecutor(max_workers=workers, mp_context=ctx, initializer=_worker_init, initargs=(base,))
+    if True:
         futs = {ex.submit(_run_chunk, pid, base_seed, c, tier): c for c in idx_chunks}
         try:
             for fut in cf.as_completed(futs, timeout=wall_cap):
@@ -458,13 +461,19 @@ def run_check(pid, tier="quick", base_seed=0, n=None, workers=None, wall_cap=Non
         except cf.TimeoutError:
             timed_out = True
         if timed_out or early_stop:
-            for fut in futs:
-                fut.cancel()
-            for p in list(getattr(ex, "_processes", {}).values()):
+            # Abandon the pool: joining an executor whose workers were killed can block for ever in its management
+            # thread (seen once in ~100 batches), so the process leaves through os._exit at the very end (HARD_EXIT).
+            global HARD_EXIT
+            HARD_EXIT = True
+            procs = list((getattr(ex, "_processes", None) or {}).values())
+            ex.shutdown(wait=False, cancel_futures=True)
+            for p in procs:
                 try:
                     p.kill()  # the chunk children die with their worker (PR_SET_PDEATHSIG)
                 except Exception:  # noqa: BLE001
                     pass
+        else:
+            ex.shutdown(wait=True)
     t_search = time.time() - t_start
 
     # ---- canaries for known findings: they must still reproduce ----
